@@ -176,7 +176,7 @@ class Interp:
         if z3.is_true(g):
             self.obs.append(ObResult(ob_id, "proved", 0.0, detail, kind=kind, path=self.prefix[:self.pos], line=self.cur_line))
             return True
-        r = self.check(z3.Not(goal))
+        r = self.check(z3.And([z3.Not(goal)] + self.seed_ground_terms(goal)))
         dt = time.time() - t0
         if r == UNSAT:
             self.obs.append(ObResult(ob_id, "proved", dt, detail, kind=kind, path=self.prefix[:self.pos], line=self.cur_line))
@@ -233,6 +233,36 @@ class Interp:
 
     def trust(self, name):
         self.trusted.add(name)
+
+    def seed_ground_terms(self, goal):
+        """E-matching only sees ground terms that occur OUTSIDE quantifiers.  A ground array read such as sums[n-1] that the goal mentions only inside a
+        quantifier body would never be used as an instance; naming it (c = sums[n-1], c fresh) puts it into the E-graph.  Logically a no-op."""
+        out, seen = [], set()
+
+        def has_var(t):
+            if z3.is_var(t):
+                return True
+            return any(has_var(ch) for ch in t.children()) if z3.is_app(t) else (z3.is_quantifier(t) and True)
+
+        def walk(t, inside):
+            if z3.is_quantifier(t):
+                walk(t.body(), True)
+                return
+            if not z3.is_app(t):
+                return
+            if inside and t.decl().kind() == z3.Z3_OP_SELECT and not has_var(t):
+                key = t.get_id()
+                if key not in seen:
+                    seen.add(key)
+                    out.append(L.fresh("gt", t.sort()) == t)
+                return
+            for ch in t.children():
+                walk(ch, inside)
+        try:
+            walk(goal, False)
+        except Exception:
+            return []
+        return out[:40]
 
     def unique_int(self, t):
         """the concrete value of an integer term if the path condition determines it, else None"""
